@@ -32,13 +32,13 @@ theorem run_shape_pool {cfg : Cfg} (wf : WF cfg) (ord : List Path) (hord : ord.N
     (h : J0 cfg fs) (hp : rs = true → fs.good .params = true) (hcl : rs = false → lockList cfg fs = [])
     (hsv : cfg.fromSaves = true → SavesOK cfg fs) :
     ∃ rest : List Ev,
-      (runPool fixed cfg ord rs s1 s2 fs).evs = .create .params :: .commit .params .good :: rest ∧
+      (runPool fixed cfg ord rs s1 s2 fs).evs = paramsEvs fixed ++ rest ∧
       (runPool fixed cfg ord rs s1 s2 fs).ok = true ∧
       AllP (J cfg) (afterParams fs) rest ∧
       FinOK cfg (runPool fixed cfg ord rs s1 s2 fs).fs := by
   have hj := J_afterParams h
   have hlk : (afterParams fs).has .lock = fs.has .lock := by
-    simp only [FS.has]; rw [afterParams_other fs (by simp)]
+    simp only [FS.has]; rw [afterParams_other fs (by simp) (by simp)]
   have hrun : runPool fixed cfg ord rs s1 s2 fs = runPhases (phases fixed cfg ord rs (rs && fs.has .lock) s1 s2) fs := by
     cases rs with
     | true => simpa using runPool_resume_eq cfg ord s1 s2 fs
@@ -47,18 +47,18 @@ theorem run_shape_pool {cfg : Cfg} (wf : WF cfg) (ord : List Path) (hord : ord.N
     (by intro e; simp only [Bool.and_eq_true] at e; exact e.1)
     (by intro e; simp only [Bool.and_eq_true] at e; rw [hlk]; exact e.2)
     (by intro e _ e'; rw [hlk]; subst e'; simpa using e)
-    (fun e => savesOK_frame (hsv e) (afterParams_other fs (by simp)) (fun _ => afterParams_other fs (by simp))
-      (fun _ => afterParams_other fs (by simp)))
-    (by intro _ e c hc; rw [FS.has, afterParams_other fs (by simp)]; exact lockList_nil_processed (hcl e) c hc)
-  have hck : ChecksOK (paramsStage rs fs) fs := by
+    (fun e => savesOK_frame (hsv e) (afterParams_other fs (by simp) (by simp)) (fun _ => afterParams_other fs (by simp) (by simp))
+      (fun _ => afterParams_other fs (by simp) (by simp)))
+    (by intro _ e c hc; rw [FS.has, afterParams_other fs (by simp) (by simp)]; exact lockList_nil_processed (hcl e) c hc)
+  have hck : ChecksOK (paramsStage fixed rs fs) fs := by
     unfold paramsStage
     cases rs with
     | false => exact checks_evs _ _
     | true => exact ⟨hp rfl, checks_evs _ _⟩
-  have hev : eventsOf (paramsStage rs fs) = [.create .params, .commit .params .good] := by
-    unfold paramsStage; cases rs <;> rfl
+  have hev : eventsOf (paramsStage fixed rs fs) = paramsEvs fixed := by
+    unfold paramsStage; cases rs <;> simp [eventsOf]
   obtain ⟨hok0, hevs0⟩ := runActs_of_checks hck
-  have hfs0 : (runActs (paramsStage rs fs) fs).fs = afterParams fs := by
+  have hfs0 : (runActs (paramsStage fixed rs fs) fs).fs = afterParams fs := by
     rw [runActs_fs, hevs0, hev]; rfl
   refine ⟨(runPhases (.seq (refStage fixed cfg rs) :: restPhases cfg ord rs ((rs && fs.has .lock) || cfg.fromSaves) s1 s2)
     (afterParams fs)).evs, ?_, ?_, hg.2, ?_⟩
@@ -72,13 +72,18 @@ theorem run_shape_pool {cfg : Cfg} (wf : WF cfg) (ord : List Path) (hord : ord.N
 theorem crash_state_invariant_pool {cfg : Cfg} (wf : WF cfg) (ord : List Path) (hord : ord.Nodup) (rs : Bool)
     (s1 s2 : List Chr) {fs : FS}
     (h : J0 cfg fs) (hp : rs = true → fs.good .params = true) (hcl : rs = false → lockList cfg fs = [])
-    (hsv : cfg.fromSaves = true → SavesOK cfg fs) (k : Nat) (hk : 2 ≤ k) :
+    (hsv : cfg.fromSaves = true → SavesOK cfg fs) (k : Nat) (hk : 4 ≤ k ∨ rs = true) :
     J cfg (applyAll fs ((runPool fixed cfg ord rs s1 s2 fs).evs.take k)) := by
   obtain ⟨rest, hevs, _, hall, _⟩ := run_shape_pool wf ord hord rs s1 s2 h hp hcl hsv
-  obtain ⟨k', rfl⟩ : ∃ k', k = k' + 2 := ⟨k - 2, by omega⟩
   rw [hevs]
-  simp only [List.take_succ_cons, applyAll]
-  exact AllP_take hall k'
+  by_cases h4 : 4 ≤ k
+  · obtain ⟨k', rfl⟩ : ∃ k', k = (paramsEvs fixed).length + k' := ⟨k - 4, by simp [paramsEvs, fixed]; omega⟩
+    rw [take_length_add, applyAll_append]
+    exact AllP_take hall k'
+  · have hrs : rs = true := by rcases hk with hk | hk; exact absurd hk h4; exact hk
+    have hlt : k ≤ (paramsEvs fixed).length := by simp [paramsEvs, fixed]; omega
+    rw [List.take_append_of_le_length hlt]
+    exact AllP_take (params_prefix_J ⟨hp hrs, h⟩) k
 
 /-- **history clause, process pool**: the run is started on *any* file system `fs0` (with `--read_assignments`: on
     complete save files plus arbitrary leftovers) with any schedules `s1 s2`, killed after any `k` events of the
@@ -87,14 +92,14 @@ theorem crash_state_invariant_pool {cfg : Cfg} (wf : WF cfg) (ord : List Path) (
 theorem resume_correct_pool_from {cfg : Cfg} (wf : WF cfg) (ord ord' : List Path) (hord : ord.Nodup) (hord' : ord'.Nodup)
     (s1 s2 s1' s2' : List Chr)
     (fs0 : FS) (hs : cfg.fromSaves = true → SavesConsistent cfg fs0) (hi : IndexSound cfg fs0) (k : Nat)
-    (hk : (lockList cfg fs0).length + 2 ≤ k) : verdictPoolFrom fixed cfg ord ord' s1 s2 s1' s2' fs0 k = .equal := by
+    (hk : (lockList cfg fs0).length + 4 ≤ k) : verdictPoolFrom fixed cfg ord ord' s1 s2 s1' s2' fs0 k = .equal := by
   obtain ⟨hevs, hok0, hfs0⟩ := runPool_split wf ord s1 s2 fs0
   have hJ0 := J0_cleaned fs0 hs hi
   have hcl : lockList cfg (cleaned cfg fs0) = [] := lockList_cleaned cfg fs0
   have hsv1 : cfg.fromSaves = true → SavesOK cfg (cleaned cfg fs0) := fun e =>
     savesOK_frame (hs e).1 (cleaned_other cfg fs0 rfl) (fun _ => cleaned_other cfg fs0 rfl) (fun _ => cleaned_other cfg fs0 rfl)
   obtain ⟨k', rfl⟩ : ∃ k', k = (lockList cfg fs0).length + k' := ⟨k - (lockList cfg fs0).length, by omega⟩
-  have hk' : 2 ≤ k' := by omega
+  have hk' : 4 ≤ k' := by omega
   -- the crash state is a crash state of the run on the cleaned folder
   have hcrash : crashFSPool fixed cfg ord s1 s2 fs0 ((lockList cfg fs0).length + k') =
       applyAll (cleaned cfg fs0) ((runPool fixed cfg ord false s1 s2 (cleaned cfg fs0)).evs.take k') := by
@@ -104,7 +109,7 @@ theorem resume_correct_pool_from {cfg : Cfg} (wf : WF cfg) (ord ord' : List Path
     rw [this, applyAll_append]; rfl
   have hJ : J cfg (crashFSPool fixed cfg ord s1 s2 fs0 ((lockList cfg fs0).length + k')) := by
     rw [hcrash]
-    exact crash_state_invariant_pool wf ord hord false s1 s2 hJ0 (by simp) (fun _ => hcl) hsv1 k' hk'
+    exact crash_state_invariant_pool wf ord hord false s1 s2 hJ0 (by simp) (fun _ => hcl) hsv1 k' (Or.inl hk')
   have hsvc : cfg.fromSaves = true → SavesOK cfg (crashFSPool fixed cfg ord s1 s2 fs0 ((lockList cfg fs0).length + k')) := by
     intro e
     rw [hcrash]
@@ -133,7 +138,7 @@ theorem resume_correct_pool_from {cfg : Cfg} (wf : WF cfg) (ord ord' : List Path
 /-- process pool, the output folder already holds the remains of an earlier (killed or finished) run: any leftovers -/
 theorem resume_correct_pool_dirty_folder {cfg : Cfg} (wf : WF cfg) (hm : cfg.fromSaves = false) (ord ord' : List Path)
     (hord : ord.Nodup) (hord' : ord'.Nodup) (s1 s2 s1' s2' : List Chr) (fs0 : FS) (hi : IndexSound cfg fs0) (k : Nat)
-    (hk : (lockList cfg fs0).length + 2 ≤ k) :
+    (hk : (lockList cfg fs0).length + 4 ≤ k) :
     verdictPoolFrom fixed cfg ord ord' s1 s2 s1' s2' fs0 k = .equal :=
   resume_correct_pool_from wf ord ord' hord hord' s1 s2 s1' s2' fs0 (fun e => by rw [hm] at e; exact absurd e (by simp)) hi k hk
 
@@ -142,27 +147,27 @@ theorem resume_correct_pool_dirty_folder {cfg : Cfg} (wf : WF cfg) (hm : cfg.fro
 theorem resume_correct_pool_read_assignments {cfg : Cfg} (wf : WF cfg) (hm : cfg.fromSaves = true) (ord ord' : List Path)
     (hord : ord.Nodup) (hord' : ord'.Nodup) (s1 s2 s1' s2' : List Chr) (fs0 : FS) (hs : SavesConsistent cfg fs0)
     (hi : IndexSound cfg fs0) (k : Nat)
-    (hk : (lockList cfg fs0).length + 2 ≤ k) : verdictPoolFrom fixed cfg ord ord' s1 s2 s1' s2' fs0 k = .equal :=
+    (hk : (lockList cfg fs0).length + 4 ≤ k) : verdictPoolFrom fixed cfg ord ord' s1 s2 s1' s2' fs0 k = .equal :=
   resume_correct_pool_from wf ord ord' hord hord' s1 s2 s1' s2' fs0 (fun _ => hs) hi k hk
 
 /-- **full-strength property under a process pool** (fresh output folder, BAM input): for every interleaving `s1 s2`
     of the killed run, every kill point `k ≥ 2` of its global event list and every interleaving `s1' s2'` of the resumed
     run, the resumed run completes and every final file equals that of the uninterrupted run -/
 theorem resume_correct_pool {cfg : Cfg} (wf : WF cfg) (hm : cfg.fromSaves = false) (ord ord' : List Path) (hord : ord.Nodup)
-    (hord' : ord'.Nodup) (s1 s2 s1' s2' : List Chr) (k : Nat) (hk : 2 ≤ k) :
+    (hord' : ord'.Nodup) (s1 s2 s1' s2' : List Chr) (k : Nat) (hk : 4 ≤ k) :
     verdictPool fixed cfg ord ord' s1 s2 s1' s2' k = .equal :=
   resume_correct_pool_dirty_folder wf hm ord ord' hord hord' s1 s2 s1' s2' FS.empty (indexSound_empty cfg) k
     (by rw [lockList_empty]; simpa using hk)
 
 /-- safety half: a resumed pool run never exits successfully with different, truncated or missing results -/
 theorem resume_never_silently_wrong_pool {cfg : Cfg} (wf : WF cfg) (hm : cfg.fromSaves = false) (ord ord' : List Path)
-    (hord : ord.Nodup) (hord' : ord'.Nodup) (s1 s2 s1' s2' : List Chr) (k : Nat) (hk : 2 ≤ k) :
+    (hord : ord.Nodup) (hord' : ord'.Nodup) (s1 s2 s1' s2' : List Chr) (k : Nat) (hk : 4 ≤ k) :
     verdictPool fixed cfg ord ord' s1 s2 s1' s2' k ≠ .diff := by
   rw [resume_correct_pool wf hm ord ord' hord hord' s1 s2 s1' s2' k hk]; decide
 
 /-- liveness half: the resumed pool run completes -/
 theorem resume_completes_pool {cfg : Cfg} (wf : WF cfg) (hm : cfg.fromSaves = false) (ord ord' : List Path)
-    (hord : ord.Nodup) (hord' : ord'.Nodup) (s1 s2 s1' s2' : List Chr) (k : Nat) (hk : 2 ≤ k) :
+    (hord : ord.Nodup) (hord' : ord'.Nodup) (s1 s2 s1' s2' : List Chr) (k : Nat) (hk : 4 ≤ k) :
     verdictPool fixed cfg ord ord' s1 s2 s1' s2' k ≠ .fail := by
   rw [resume_correct_pool wf hm ord ord' hord hord' s1 s2 s1' s2' k hk]; decide
 
@@ -198,7 +203,7 @@ def afterCrashesPool (cfg : Cfg) : List (List Path × List Chr × List Chr × Na
 
 theorem afterCrashesPool_J {cfg : Cfg} (wf : WF cfg) (hm : cfg.fromSaves = false)
     (chain : List (List Path × List Chr × List Chr × Nat))
-    (hc : ∀ x ∈ chain, x.1.Nodup ∧ 2 ≤ x.2.2.2) (rs : Bool) {fs : FS} (h : J0 cfg fs)
+    (hc : ∀ x ∈ chain, x.1.Nodup) (rs : Bool) (h0 : rs = false → ∀ x ∈ chain.head?, 4 ≤ x.2.2.2) {fs : FS} (h : J0 cfg fs)
     (hp : rs = true → fs.good .params = true) (hcl : rs = false → lockList cfg fs = []) (hne : chain ≠ []) :
     J cfg (afterCrashesPool cfg chain rs fs) := by
   induction chain generalizing rs fs with
@@ -206,20 +211,27 @@ theorem afterCrashesPool_J {cfg : Cfg} (wf : WF cfg) (hm : cfg.fromSaves = false
   | cons x chain ih =>
     obtain ⟨ord, s1, s2, k⟩ := x
     have hx := hc (ord, s1, s2, k) (by simp)
-    have hJ := crash_state_invariant_pool wf ord hx.1 rs s1 s2 h hp hcl (fun e => by rw [hm] at e; exact absurd e (by simp)) k hx.2
+    have hk : 4 ≤ k ∨ rs = true := by
+      cases rs with
+      | true => exact Or.inr rfl
+      | false => exact Or.inl (h0 rfl (ord, s1, s2, k) (by simp))
+    have hJ := crash_state_invariant_pool wf ord hx rs s1 s2 h hp hcl (fun e => by rw [hm] at e; exact absurd e (by simp)) k hk
     simp only [afterCrashesPool]
     cases chain with
     | nil => exact hJ
-    | cons y chain => exact ih (fun z hz => hc z (by simp [hz])) true hJ.2 (fun _ => hJ.1) (by simp) (by simp)
+    | cons y chain =>
+      exact ih (fun z hz => hc z (by simp [hz])) true (fun e => absurd e (by simp)) hJ.2 (fun _ => hJ.1) (by simp) (by simp)
 
-/-- a pool run interrupted any number of times (each time after its parameters were saved / re-saved, each run with its
-    own interleaving) and finally resumed without interruption completes with all final files complete and correct -/
+/-- a pool run interrupted any number of times (the first run after its parameters were saved, every resumed run at any
+    point, each run with its own interleaving) and finally resumed without interruption completes with all final files
+    complete and correct -/
 theorem resume_correct_pool_after_repeated_crashes {cfg : Cfg} (wf : WF cfg) (hm : cfg.fromSaves = false)
     (chain : List (List Path × List Chr × List Chr × Nat))
-    (hc : ∀ x ∈ chain, x.1.Nodup ∧ 2 ≤ x.2.2.2) (hne : chain ≠ []) (ord : List Path) (hord : ord.Nodup) (s1 s2 : List Chr) :
+    (hc : ∀ x ∈ chain, x.1.Nodup) (h0 : ∀ x ∈ chain.head?, 4 ≤ x.2.2.2) (hne : chain ≠ []) (ord : List Path)
+    (hord : ord.Nodup) (s1 s2 : List Chr) :
     (runPool fixed cfg ord true s1 s2 (afterCrashesPool cfg chain false FS.empty)).ok = true ∧
       FinOK cfg (runPool fixed cfg ord true s1 s2 (afterCrashesPool cfg chain false FS.empty)).fs := by
-  have hJ := afterCrashesPool_J wf hm chain hc false (J0_empty cfg) (by simp) (fun _ => lockList_empty cfg) hne
+  have hJ := afterCrashesPool_J wf hm chain hc false (fun _ => h0) (J0_empty cfg) (by simp) (fun _ => lockList_empty cfg) hne
   obtain ⟨_, _, hok, _, hfin⟩ := run_shape_pool wf ord hord true s1 s2 hJ.2 (fun _ => hJ.1) (by simp)
     (fun e => by rw [hm] at e; exact absurd e (by simp))
   exact ⟨hok, hfin⟩
@@ -320,11 +332,11 @@ def alt2 : List Chr := [0, 1, 0, 1, 0, 1, 0, 1, 0, 1, 0, 1, 0, 1, 0, 1]
     tasks have just written their lock (a state no sequential run passes through: both dumps unterminated), the resumed
     run raises -/
 theorem resume_completes_pool_lock_before_flush_witness :
-    ((runPool lockBeforeFlushBuggy cfg2 ord2 false alt2 [] FS.empty).evs.take 17).filter
+    ((runPool lockBeforeFlushBuggy cfg2 ord2 false alt2 [] FS.empty).evs.take 19).filter
         (fun e => e == .create (.collected 0) || e == .create (.collected 1) || e == .commit (.save 0) .good
                   || e == .commit (.save 1) .good)
       = [.create (.collected 0), .create (.collected 1)] ∧
-    verdictPool lockBeforeFlushBuggy cfg2 ord2 ord2 alt2 [] [] [] 17 = .fail := by decide +kernel
+    verdictPool lockBeforeFlushBuggy cfg2 ord2 ord2 alt2 [] [] [] 19 = .fail := by decide +kernel
 
 /-! ### non-vacuity -/
 
@@ -334,23 +346,23 @@ def rev3 : List Chr := (List.replicate 60 2) ++ (List.replicate 60 1) ++ (List.r
 
 -- the hypotheses of `resume_correct_pool` are met by a concrete non-trivial input: three chromosomes, round-robin
 -- collection, model construction in reverse blocks, kill point 120 (inside the second parallel stage)
-example : WF cfg3 ∧ ord3.Nodup ∧ 2 ≤ 120 ∧ verdictPool fixed cfg3 ord3 ord3 rr3 rev3 rev3 rr3 120 = .equal :=
+example : WF cfg3 ∧ ord3.Nodup ∧ 4 ≤ 120 ∧ verdictPool fixed cfg3 ord3 ord3 rr3 rev3 rev3 rr3 120 = .equal :=
   ⟨cfg3_wf, by decide, by omega, resume_correct_pool cfg3_wf rfl ord3 ord3 (by decide) (by decide) rr3 rev3 rev3 rr3 120 (by omega)⟩
 
 -- the interleaved event list differs from the `--threads 1` one but has the same length
-example : (runPool fixed cfg3 ord3 false rr3 rev3 FS.empty).evs.length = 302 ∧
+example : (runPool fixed cfg3 ord3 false rr3 rev3 FS.empty).evs.length = 304 ∧
     (runPool fixed cfg3 ord3 false rr3 rev3 FS.empty).evs ≠ (run fixed cfg3 ord3 false FS.empty).evs := by decide +kernel
 
--- `threads1_is_empty_schedule` on a concrete input: the 302 events of the `--threads 1` run of `cfg3`
+-- `threads1_is_empty_schedule` on a concrete input: the 304 events of the `--threads 1` run of `cfg3`
 example : (run fixed cfg3 ord3 false FS.empty).ok = true ∧
     runPool fixed cfg3 ord3 false [] [] FS.empty = run fixed cfg3 ord3 false FS.empty :=
   ⟨by decide +kernel, threads1_is_empty_schedule fixed cfg3 cfg3_wf.nd ord3 false FS.empty (by decide +kernel)⟩
 
 -- its hypothesis is needed: when a task raises (old behaviour, the dump of chromosome 0 left unterminated under its
--- lock), the lazy `map` of `--threads 1` stops there (2 events), the pool lets the task of chromosome 1 finish (10 events)
-example : (run lockBeforeFlushBuggy cfg2 ord2 true (crashFS lockBeforeFlushBuggy cfg2 ord2 10)).evs.length = 2 ∧
-    (runPool lockBeforeFlushBuggy cfg2 ord2 true [] [] (crashFS lockBeforeFlushBuggy cfg2 ord2 10)).evs.length = 10 ∧
-    (runPool lockBeforeFlushBuggy cfg2 ord2 true [] [] (crashFS lockBeforeFlushBuggy cfg2 ord2 10)).ok = false := by
+-- lock), the lazy `map` of `--threads 1` stops there (4 events), the pool lets the task of chromosome 1 finish (12 events)
+example : (run lockBeforeFlushBuggy cfg2 ord2 true (crashFS lockBeforeFlushBuggy cfg2 ord2 12)).evs.length = 4 ∧
+    (runPool lockBeforeFlushBuggy cfg2 ord2 true [] [] (crashFS lockBeforeFlushBuggy cfg2 ord2 12)).evs.length = 12 ∧
+    (runPool lockBeforeFlushBuggy cfg2 ord2 true [] [] (crashFS lockBeforeFlushBuggy cfg2 ord2 12)).ok = false := by
   decide +kernel
 
 end IsoVerif.Props.C07Pool
